@@ -121,10 +121,12 @@ func (r *RSpec) y() *yRoute {
 	o := &yRoute{Receiver: r.Receiver, GroupBy: r.GroupBy, Match: kvMap(r.Match), MatchRE: kvMap(r.MatchRE),
 		Mute: r.Mute, Active: r.Active, Continue: r.Continue, GW: dur(r.GW), GI: dur(r.GI), RI: dur(r.RI), Labels: kvMap(r.Labels)}
 	for _, m := range r.Matchers {
+		// the value is written the way the documentation (and labels.Matcher.String) writes it: OpenMetrics escaping,
+		// every other rune as it is -- a NO-BREAK SPACE or a ZERO WIDTH JOINER is typed/pasted raw, not as \u00a0
 		if classicName.MatchString(m.N) {
-			o.Matchers = append(o.Matchers, fmt.Sprintf("%s%s%q", m.N, m.T, m.V))
+			o.Matchers = append(o.Matchers, m.N+m.T+omQuote(m.V))
 		} else {
-			o.Matchers = append(o.Matchers, fmt.Sprintf("%q%s%q", m.N, m.T, m.V))
+			o.Matchers = append(o.Matchers, fmt.Sprintf("%q%s%s", m.N, m.T, omQuote(m.V)))
 		}
 	}
 	for _, c := range r.Routes {
@@ -132,6 +134,10 @@ func (r *RSpec) y() *yRoute {
 	}
 	return o
 }
+
+var omEscaper = strings.NewReplacer(`\`, `\\`, "\n", `\n`, `"`, `\"`)
+
+func omQuote(v string) string { return `"` + omEscaper.Replace(v) + `"` }
 
 // configText renders the case as configuration text (flow-style YAML; every JSON document is one).
 func configText(c *Case) string {
@@ -196,6 +202,7 @@ var (
 		// anchors written by the user (around a top-level alternation, on one side only, escaped): a regexp matcher is
 		// matched against the WHOLE value whatever its text looks like
 		"^x|y$", "^x\\$", "^x|y", "x|y$", "^(x|y)$", "^x$|^y$", "^x.*|y$"}
+	oddValues = []string{"core\u00a0platform", "\U0001F468\u200d\U0001F469", "x\ty", "x\u200by", "\u00a0", "x\u00a0\"q\""}
 	receivers = []string{"r0", "r1", "r2", "r3", "r4"}
 	tiNames   = []string{"ti1", "ti2"}
 	gbLabels  = []string{"a", "b", "c", "alertname"}
@@ -408,6 +415,29 @@ func genCase(r *vh.Rand, g genOpts, nls int) Case {
 	c := Case{Receivers: receivers, TIs: tiNames}
 	c.Root = genRoute(r, g, 0, &budget, true)
 	c.LabelSets = genLabelSets(r, nls)
+	if nodes := allNodes(c.Root); len(nodes) > 1 && r.Chance(1, 3) {
+		// a value with a rune that is not "printable" for strconv (pasted NO-BREAK SPACE, emoji joined by ZERO WIDTH
+		// JOINER, ZERO WIDTH SPACE, tab) on an equality / inequality matcher, and alerts carrying exactly that value
+		n := nodes[1+r.Intn(len(nodes)-1)]
+		name, v := vh.Pick(r, lnames), vh.Pick(r, oddValues)
+		n.Matchers = append(n.Matchers, MSpec{vh.Pick(r, []string{"=", "=", "=", "!="}), name, v})
+		for k := 0; k < 3 && k < len(c.LabelSets)-1; k++ {
+			ls := c.LabelSets[len(c.LabelSets)-1-k]
+			ls[name] = v
+			if k == 2 {
+				ls[name] = strings.ReplaceAll(strings.ReplaceAll(v, "\u00a0", " "), "\u200d", "") // the look-alike
+			}
+		}
+		dedup := map[string]bool{}
+		out := c.LabelSets[:0]
+		for _, ls := range c.LabelSets {
+			if !dedup[lsKey(ls)] {
+				dedup[lsKey(ls)] = true
+				out = append(out, ls)
+			}
+		}
+		c.LabelSets = out
+	}
 	if r.Chance(1, 9) {
 		breakConfig(r, &c)
 	}
@@ -661,6 +691,23 @@ func apiReceivers(t *testing.T, cfg *config.Config, c *Case) (map[string][]strin
 		out[lsKey(a.Labels)] = names
 	}
 	return out, nil
+}
+
+// servedConfig: config.original of GET /api/v2/status, through the real handler chain (api.Update was just called)
+func servedConfig() (string, error) {
+	rec := httptest.NewRecorder()
+	theAPI.Handler.ServeHTTP(rec, httptest.NewRequest("GET", "/api/v2/status", nil))
+	if rec.Code != 200 {
+		return "", fmt.Errorf("GET /status: status %d: %s", rec.Code, rec.Body.String())
+	}
+	var st models.AlertmanagerStatus
+	if err := json.Unmarshal(rec.Body.Bytes(), &st); err != nil {
+		return "", err
+	}
+	if st.Config == nil || st.Config.Original == nil {
+		return "", fmt.Errorf("GET /status: no config.original")
+	}
+	return *st.Config.Original, nil
 }
 
 type notification struct {
@@ -1069,6 +1116,29 @@ func runCase(t *testing.T, run *vh.Run, c *Case, withDispatcher bool) {
 	if apiErr != nil {
 		viol("api-get-alerts-failed", apiErr.Error())
 	}
+	// what `amtool config routes test|show --alertmanager.url=...` works on: the configuration text served by
+	// GET /api/v2/status (config.original), loaded again
+	var servedRoot *dispatch.Route
+	if apiErr == nil {
+		served, err := servedConfig()
+		if err != nil {
+			viol("api-status-failed", err.Error())
+		} else if cfg2, err := config.Load(served); err != nil {
+			key := "served-config-does-not-load"
+			for _, n := range allNodes(c.Root) {
+				for _, kv := range n.MatchRE {
+					if kv.V == "" {
+						// config Regexp.MarshalYAML writes an empty match_re pattern as null (known finding)
+						key = "served-config-does-not-load:empty-match_re"
+					}
+				}
+			}
+			viol(key, "the configuration GET /api/v2/status serves is rejected by config.Load (amtool --alertmanager.url cannot use it): "+err.Error())
+		} else {
+			servedRoot = dispatch.NewRoute(cfg2.Route, nil)
+			run.Count("status_round_trip", "served configuration loaded")
+		}
+	}
 	var disp dispObs
 	if withDispatcher {
 		expected := map[string][]string{}
@@ -1131,6 +1201,12 @@ func runCase(t *testing.T, run *vh.Run, c *Case, withDispatcher bool) {
 		cliRecv, _ := cli.VerifResolveAlertReceivers(root, models.LabelSet(ls))
 		if !eqStrs(cliRecv, recv) {
 			viol("consumers-disagree:amtool", fmt.Sprintf("labels {%s}: amtool routes test prints %v, Route.Match gives %v", k, cliRecv, recv))
+		}
+		if servedRoot != nil {
+			urlRecv, _ := cli.VerifResolveAlertReceivers(servedRoot, models.LabelSet(ls))
+			if !eqStrs(urlRecv, recv) {
+				viol("consumers-disagree:amtool-url-mode", fmt.Sprintf("labels {%s}: amtool routes test on the configuration served by GET /api/v2/status resolves %v, the dispatcher's tree (Route.Match) gives %v", k, urlRecv, recv))
+			}
 		}
 		var treeRecv []string
 		for _, m := range treeRecvRE.FindAllStringSubmatch(cli.VerifMatchingTree(root, models.LabelSet(ls)), -1) {
@@ -1206,6 +1282,14 @@ func TestCheck(t *testing.T) {
 	}
 	var cases []Case
 	if env.Replay != "" {
+		var fc flapCase
+		if err := vh.LoadReplayCase(env.Replay, &fc); err == nil && fc.Engine == "flap" {
+			runFlapCase(t, run, &fc)
+			if err := run.Finish("replay of one flapping-alerts case"); err != nil {
+				t.Fatal(err)
+			}
+			return
+		}
 		var c Case
 		if err := vh.LoadReplayCase(env.Replay, &c); err != nil {
 			t.Fatal(err)
@@ -1235,8 +1319,11 @@ func TestCheck(t *testing.T) {
 			run.Count("exhaustive", c.Note)
 		})
 	}
+	if env.Replay == "" {
+		flapPart(t, run, env) // flap_test.go: flapping alerts under a group limit that exactly fits
+	}
 	amtoolVerifyPart(t, run, env) // amtool_verify_test.go: the real `routes test --verify.receivers` command line
-	if err := run.Finish("corpus + 5 hand-written trees + random routing trees (depth <= 4, fan-out <= 4, ~11% invalid) as configuration text through config.Load + dispatch.NewRoute; per tree 14 label sets over 3 labels x {x,y,xy,empty,absent}; consumers (API, amtool, amtool --tree, Dispatcher groups and notifications) compared per label set; thorough tier adds all trees <= 5 nodes over 2 labels x 2 values with all continue flags x 9 label sets; non-trivial = some label set is routed below the root; distinct by full case text"); err != nil {
+	if err := run.Finish("corpus + 5 hand-written trees + random routing trees (depth <= 4, fan-out <= 4, ~11% invalid) as configuration text through config.Load + dispatch.NewRoute; per tree 14 label sets over 3 labels x {x,y,xy,empty,absent}; consumers (API, amtool, amtool --tree, amtool on the configuration served by GET /api/v2/status, Dispatcher groups and notifications) compared per label set; every third tree has a matcher value with a non-printable rune; 6 flapping-alert histories under a group limit that exactly fits (flap_test.go); thorough tier adds all trees <= 5 nodes over 2 labels x 2 values with all continue flags x 9 label sets; non-trivial = some label set is routed below the root; distinct by full case text"); err != nil {
 		t.Fatal(err)
 	}
 }
